@@ -7,7 +7,7 @@ from fractions import Fraction as Fr
 import numpy as np
 import segyio
 
-from .. import audit, codec, env, inputs, par, session, writers
+from .. import audit, codec, env, inputs, par, reducedio, session, writers
 
 FINISH = dict(
     level='model_checking',
@@ -106,6 +106,12 @@ def plan(run):
     for route, opts in (('segy', {'fmt': 5, 'dead': 1}), ('segy-iops', {'fmt': 5, 'dead': 1}), ('segy-iops', {'fmt': 1, 'dead': 1}), ('segy-iops', {'fmt': 5, 'dead': 1, 'ext': 1})):
         P.append((route, (6, 5, 40), 16, None, opts))
         P.append((route, (9, 9, 20), 32, (8, 8, 16), opts))
+    # dead traces along both edges (first inline AND first crossline all zero) in files of either sorting: the first run of consecutive
+    # file traces then equals the first inline whatever the sorting is (what the reduced-I/O reader tests itself with)
+    for sort in ('il', 'xl'):
+        for route, fmt in (('segy', 5), ('segy-iops', 5), ('segy-iops', 1)):
+            P.append((route, (5, 5, 40), 16, None, {'fmt': fmt, 'dead': 2, 'sort': sort}))
+            P.append((route, (9, 7, 20), 32, (8, 8, 16), {'fmt': fmt, 'dead': 2, 'sort': sort}))
     return P
 
 
@@ -117,6 +123,8 @@ def _make(item):
     cube = inputs.cube(shape, seed)
     if opts.get('dead'):
         cube[0] = 0.0
+    if opts.get('dead') == 2:
+        cube[:, 0] = 0.0
     p = os.path.join(d, f'f{k}.sgz')
     rate_true = Fr(opts.get('rate_true', rate)) if not isinstance(rate, str) else Fr(opts['rate_true'])
     res = {'k': k, 'written': False}
@@ -195,6 +203,8 @@ def run(run):
     P = plan(run)
     par.G['seed'] = run.seed
     par.G['layout_cache'] = {}
+    # which SEG-Y reader the converter picks (SgzReducedIo): TLC's cases converted by both routes
+    reducedio.run_pass(run, 400 if run.tier == 'quick' else 4000, np.random.default_rng(run.seed))
     made = par.pmap(_make, list(enumerate(P)), chunksize=2)
     todo = []
     for (route, shape, rate, bs, opts), r in zip(P, made):
@@ -263,6 +273,9 @@ def fixture_routes(run):
 
 def replay(run, rep):
     c = rep['case']
+    if 'reduced_io' in c:
+        reducedio.replay(run, rep)
+        return
     if 'file' in c:
         fixture_routes(run)
         return
